@@ -358,6 +358,7 @@ ERR_PATTERNS = [
     ("RuntimeError", "missing extra data", "fmtInvalid"),
     ("ValueError", "invalid ID", "badId"),
     ("ValueError", "ends after the end of the file", "chunkEnd"),
+    ("ValueError", "data chunk size has not been set", "dataPlaceholder"),
     ("ValueError", "required chunk", "missingChunk"),
     ("ValueError", "illegal format chunk size", "fmtSize"),
     ("ValueError", "cbSize", "cbSize"),
@@ -615,6 +616,35 @@ def roundtrip_predicate(case, data=None):
 # ------------------------------------------------------------------------------------------------
 
 
+def data_header_at(data):
+    """offset of the `data` chunk id in a file laid out by Bw64Writer (12-byte header, then ds64/JUNK, fmt, chunks):
+    a plain walk over the 32-bit size fields up to the first `data` id (the chunks before it have true sizes)"""
+    pos = 12
+    while pos + 8 <= len(data):
+        cid, size = data[pos:pos + 4], struct.unpack("<I", data[pos + 4:pos + 8])[0]
+        if cid == b"data":
+            return pos
+        pos += 8 + size + (size & 1)
+    return None
+
+
+def placeholder_field_variants(data):
+    """Reader-side inputs derived from one finalised BW64 file (forceBw64): in BW64 mode close() leaves 0xFFFFFFFF in
+    the 32-bit size field of the `data` header (the size is in ds64).  The reader's "data chunk size has not been set"
+    test (commit 61d37f4) must not fire there, nor for the same bytes relabelled RF64 (relabelled RIFF it does fire:
+    that variant belongs to C17's crafted family, harness/c17.py).
+    [(label, bytes, expected verdict kind: 'ok' | error kind)]"""
+    assert data[:4] == b"BW64"
+    dpos = data_header_at(data)
+    out = [("bw64-as-written", data, "ok"), ("relabelled-RF64", b"RF64" + data[4:], "ok")]
+    if dpos is not None:
+        # the true size in the 32-bit field of the BW64 file changes nothing (ds64 wins)
+        n = struct.unpack("<Q", data[28:36])[0]
+        if n < 0xFFFFFFFF:
+            out.append(("bw64-true-size-in-field", data[:dpos + 4] + struct.pack("<I", n) + data[dpos + 8:], "ok"))
+    return dpos, out
+
+
 def grid_cases(rng, n_random, small=False):
     """every chunk presence/parity/placement x force combination once (format parameters cycling through bit
     depth x channels x frame-count class), then random combinations."""
@@ -749,6 +779,38 @@ class C09(Spec):
             bad = predicates(case, data)
             if bad:
                 ctx.hit(bad[0], case_repr(case), bad[1], bad[2])
+        self._placeholder_field(ctx, [d for _, d, _ in reals if d[:4] == b"BW64"], driver)
+
+    def _placeholder_field(self, ctx, bw64_files, driver):
+        """reader side: the 32-bit size field of the data header of every finalised BW64 file holds 0xFFFFFFFF and the
+        reader accepts it (size from ds64); for every 6th file the relabelled variants go through model and code"""
+        todo = []
+        for i, data in enumerate(bw64_files):
+            dpos, variants = placeholder_field_variants(data)
+            if dpos is None or data[dpos + 4:dpos + 8] != b"\xff\xff\xff\xff":
+                ctx.count("bw64-data-size-field:other")
+                continue
+            ctx.count("bw64-data-size-field:0xFFFFFFFF")
+            if i % 6 == 0:
+                todo += [(label, v, want) for label, v, want in variants]
+        outs = driver.run(["read " + val(v) for _, v, _ in todo]) if driver else [None] * len(todo)
+        for (label, v, want), out in zip(todo, outs):
+            r = real_read(v)
+            got = "ok" if r[0] == "ok" else r[1]
+            ctx.count("placeholder-variant:%s:%s" % (label, got))
+            ctx.case(("variant", v), True,
+                     sample=dict(kind="reader-side variant of a finalised BW64 file", variant=label, verdict=got)
+                     if label != "bw64-as-written" else None)
+            if driver:
+                m = parse_read_answer(out)
+                if m != canon_real(r):
+                    ctx.disagree("Bw64Reader on %s file vs Earverif.Bw64.readFile" % label, dict(file=v.hex()), m, canon_real(r))
+                else:
+                    ctx.validated()
+            if got != want:
+                ctx.count("placeholder-variant:UNEXPECTED:%s" % label)
+            # only the file as written is inside C09's quantifier (and the round-trip predicate has already run on it);
+            # the relabelled files are reader-side observations compared with the model
 
     def correspond(self, ctx):
         driver = Driver("c09driver", "Earverif.Driver.C09")
@@ -804,7 +866,12 @@ REGISTRY = dict(
     "(parses, warnings as multiset, the reader's data position / block alignment / data size / file length) and bit-for-bit "
     "(samples returned by read(len)) over all 250 chunk presence/parity/placement/force combinations x bit depth x channels "
     "x frame classes + random histories; the round-trip predicate (format, samples exact for representable values / within "
-    "one step otherwise, chunk bytes, chna objects, no warnings) runs on the real code for every case.",
+    "one step otherwise, chunk bytes, chna objects, no warnings) runs on the real code for every case. The reader's "
+    "'data chunk size has not been set' test (0xFFFFFFFF in the data header of a plain RIFF file, commit 61d37f4) is in the "
+    "model (isPlaceholder); a finalised file never trips it: in RIFF mode the data size is at least 72 below the RIFF size, "
+    "which is < 2^32 (Chunk.OK.noPlaceholder in closedFile's layout), in BW64 mode the field does hold 0xFFFFFFFF (checked on "
+    "every generated BW64 file) and the branch is not reached; every 6th BW64 file is also read as written / relabelled "
+    "RF64 / with the true size in the field, model vs code (all accepted).",
     note="Trusted: Lean kernel; hand transliteration of writer/reader/PCM utils + correspondence harness; BytesIO semantics as "
     "modelled (readAt/patchAt); numpy float64 * and / being IEEE round-to-nearest-even (C16's rn53 model, checked bit for "
     "bit on every run); a chna entry is track index + 38 opaque bytes in the theorem (string-level AudioID codec covered by "
